@@ -54,6 +54,41 @@ theorem centroid_translate (l : List (V3 α)) (v : V3 α) (hn : (l.length : α) 
   rw [vsum_translate, hlen]
   apply V3.eq_of <;> simp only [V3.add, V3.smul] <;> field_simp
 
+/-! ### rigid motions as a predicate on point maps -/
+
+/-- A map of points is a rigid motion when it is `p ↦ p @ R + t` for a proper rotation `R`. -/
+def Rigid (f : V3 α → V3 α) : Prop := ∃ (r : M3 α) (t : V3 α), r.IsRot ∧ ∀ p, f p = (p.mulM r).add t
+
+theorem Rigid.translate (v : V3 α) : Rigid (fun p => p.add v) :=
+  ⟨M3.one, v, isRot_one, fun p => by rw [mulM_one]⟩
+
+theorem Rigid.sub (v : V3 α) : Rigid (fun p => p.sub v) :=
+  ⟨M3.one, v.neg, isRot_one, fun p => by
+    rw [mulM_one]; apply V3.eq_of <;> simp only [V3.add, V3.sub, V3.neg] <;> ring⟩
+
+theorem Rigid.transform (r : M3 α) (hr : r.IsRot) : Rigid (fun p => p.mulM r) :=
+  ⟨r, V3.zero, hr, fun p => by rw [Molli.Lemmas.Geom.add_zero]⟩
+
+theorem Rigid.rotateAbout (o : V3 α) (r : M3 α) (hr : r.IsRot) : Rigid (rotateAbout o r) :=
+  ⟨r, o.sub (o.mulM r), hr, fun p => rotateAbout_eq o r p⟩
+
+theorem Rigid.comp {f g : V3 α → V3 α} (hf : Rigid f) (hg : Rigid g) : Rigid (fun p => g (f p)) := by
+  obtain ⟨r1, t1, h1, e1⟩ := hf
+  obtain ⟨r2, t2, h2, e2⟩ := hg
+  refine ⟨r1.mul r2, (t1.mulM r2).add t2, IsRot.mul h1 h2, fun p => ?_⟩
+  show g (f p) = _
+  rw [e2, e1, ← mulM_mul]
+  apply V3.eq_of <;> simp only [V3.add, V3.mulM] <;> ring
+
+theorem Rigid.dist {f : V3 α → V3 α} (h : Rigid f) (p q : V3 α) : dist2 (f p) (f q) = dist2 p q := by
+  obtain ⟨r, t, hr, hf⟩ := h
+  rw [hf, hf, rigid_dist hr.1]
+
+theorem Rigid.triple {f : V3 α → V3 α} (h : Rigid f) (p q r o : V3 α) :
+    triple (f p) (f q) (f r) (f o) = triple p q r o := by
+  obtain ⟨m, t, hm, hf⟩ := h
+  rw [hf, hf, hf, hf, rigid_triple hm.2]
+
 end Field
 
 /-! ### the alignment scan -/
